@@ -299,6 +299,10 @@ func (fields List) Get(name string) Field {
 					return bfield(name, Kind(res.Type), res.String())
 				}
 			}
+			if fname == name {
+				// the field with the dotted name is itself a JSON document
+				return bfield(name, kind, data)
+			}
 		} else {
 			if name < fname {
 				break
